@@ -501,6 +501,9 @@ class AbstractExcelInPython(ABC):
         return when_error() if callable(when_error) else when_error
 
     def _left(self, text, num_chars):
+        if isinstance(num_chars, float):
+            # a count that was computed (6/2) arrives as a float: Excel cuts the fraction off
+            num_chars = int(num_chars)
         if num_chars is None:
             return text[0]
         if num_chars < 0:
@@ -513,6 +516,8 @@ class AbstractExcelInPython(ABC):
         return text[0:num_chars]
 
     def _mid(self, text, start_num, num_chars):
+        # a position or count that was computed (6/2) arrives as a float: Excel cuts the fraction off
+        start_num, num_chars = (int(number) if isinstance(number, float) else number for number in (start_num, num_chars))
         if start_num < 1:
             return '#NUM!'
         if num_chars < 0:
@@ -664,6 +669,9 @@ class AbstractExcelInPython(ABC):
         return self._sum(sum_range)
 
     def _right(self, text, num_chars):
+        if isinstance(num_chars, float):
+            # a count that was computed (6/2) arrives as a float: Excel cuts the fraction off
+            num_chars = int(num_chars)
         if num_chars is None:
             return text[len(text) - 1]
         if num_chars < 0:
